@@ -130,13 +130,43 @@ def check_binop(run, case):
            % (a, b))
 
 
+def _plain_lit(a):
+    """literal spelling without sign or parentheses, or None"""
+    if a is None or isinstance(a, (bool, str)):
+        return common.lit(a)
+    if a < 0 or (isinstance(a, float) and str(a)[0] == '-'):
+        return None
+    try:
+        return common.lit(a)
+    except ValueError:
+        return None
+
+
 def check_unop(run, case):
     a, op = common.dec(case['a']), case['op']
     case = dict(case)
+    form = case.get('form', 'vars')
     case['class'] = 'unary %s %s' % (op, M.kind(a))
-    got = _outcome('%s $a' % op, {'a': a})
-    run.case(case, a not in ORDINARY, fp=(op, case['a']), cls=case['class'])
-    _judge(run, case, 'unary', M.unop(op, a), got, '%s %r' % (op, a))
+    expected = M.unop(op, a)
+    if form == 'vars':
+        text, binds = '%s $a' % op, {'a': a}
+    else:
+        l = _plain_lit(a)
+        if l is None:
+            return
+        binds = {}
+        if form == 'literal':
+            text = '%s %s' % (op, l)
+        elif form == 'literal-tight':
+            text = '%s%s' % (op, l) if op != 'not' else 'not %s' % l
+        else:       # operator applied twice to the literal
+            text = '%s %s %s' % (op, op, l)
+            if expected[0] == 'ok':
+                expected = M.unop(op, expected[1])
+    got = _outcome(text, binds)
+    run.case(case, a not in ORDINARY or form != 'vars',
+             fp=(op, case['a'], form), cls=[case['class'], 'unary-' + form])
+    _judge(run, case, 'unary', expected, got, '%s with %r' % (text, a))
 
 
 def _truth(text, binds):
@@ -279,7 +309,9 @@ def run(run):
     run.shards(_pairs_shard, jobs)
     for a in CORPUS:
         for op in UN:
-            check_unop(run, {'kind': 'unop', 'op': op, 'a': common.enc(a)})
+            for form in ('vars', 'literal', 'literal-tight', 'twice'):
+                check_unop(run, {'kind': 'unop', 'op': op,
+                                 'a': common.enc(a), 'form': form})
     for a in CORPUS:
         check_seqrep(run, {'kind': 'seqrep', 'n': common.enc(a)})
     run.shards(_laws_shard, [(i, 16, full) for i in range(16)])
